@@ -3,6 +3,7 @@ package main
 import (
 	"fmt"
 	"go/token"
+	"go/types"
 	"strings"
 
 	"golang.org/x/tools/go/ssa"
@@ -268,6 +269,9 @@ func runC03(c *Ctx) {
 	// ---------- O-4 load order ----------
 	c.checkHeapShape()
 
+	// ---------- O-6 the legacy client format carries the NAT type too ----------
+	c.checkLegacyShim("O-6 legacy format hands the NAT header to the same handler")
+
 	// ---------- O-5 the client reports the NAT type its probe found ----------
 	rule5 := "O-5 client NAT probe mapping"
 	if un := p.Fn("client/lib", "updateNATType"); un != nil {
@@ -318,7 +322,31 @@ func (c *Ctx) checkNATSwitch(rule, rel, name string) {
 		return
 	}
 	c.analysedFn(p.FnName(fn))
-	isNAT := func(v ssa.Value) bool { _, f, ok := fieldLoad(v); return ok && f.Name() == "NAT" }
+	isNATField := func(v ssa.Value) bool { _, f, ok := fieldLoad(v); return ok && f.Name() == "NAT" }
+	// the vocabulary test may live in the decoder itself or in a same-package
+	// helper that the decoder hands its NAT field to
+	outer := fn
+	var helperCall *ssa.Call
+	var natPar *ssa.Parameter
+	for _, ci := range callsIn(outer) {
+		cc, ok := ci.(*ssa.Call)
+		h := staticCallee(ci)
+		if !ok || h == nil || h.Blocks == nil || !samePkg(h, outer) || h == outer {
+			continue
+		}
+		for i, a := range callArgs(ci) {
+			if isNATField(a) && i < len(h.Params) && errResultIndex(h.Signature) >= 0 {
+				helperCall, natPar = cc, h.Params[i]
+				fn = h
+			}
+		}
+	}
+	isNAT := func(v ssa.Value) bool {
+		if natPar != nil {
+			return strip(v) == ssa.Value(natPar)
+		}
+		return isNATField(v)
+	}
 	set := map[string]bool{}
 	accept := condEdges(fn, true, func(a Atom) bool {
 		if a.Op != token.EQL {
@@ -347,7 +375,7 @@ func (c *Ctx) checkNATSwitch(rule, rel, name string) {
 	n := 0
 	for _, r := range returnsOf(fn) {
 		ei := errResultIndex(fn.Signature)
-		if ei < 0 || !mayBeNil(r.Results[ei]) {
+		if ei < 0 || !retMayBeNil(r, ei) {
 			continue
 		}
 		n++
@@ -372,6 +400,53 @@ func (c *Ctx) checkNATSwitch(rule, rel, name string) {
 		}
 		return false
 	})
+	if helperCall != nil {
+		// helper form: result 0 is "unknown" exactly behind the == "" edge and the
+		// argument itself otherwise; the decoder stores result 0 into the NAT field
+		// and succeeds only behind the helper's err == nil
+		okDefault := len(emptyEdge) > 0
+		ei := errResultIndex(fn.Signature)
+		for _, r := range returnsOf(fn) {
+			if !retMayBeNil(r, ei) {
+				continue
+			}
+			v := retVal(r, 0)
+			s, isC := constString(v)
+			switch {
+			case isC && s == "unknown" && reachableWithout(fn, r, emptyEdge) == nil:
+			case !isC && strip(v) == ssa.Value(natPar):
+				// must not be the "" case
+				for _, e := range emptyEdge {
+					if reachPath(e.To(), r.Block(), nil) != nil {
+						okDefault = false
+					}
+				}
+			default:
+				okDefault = false
+			}
+		}
+		stored := false
+		allInstrs(outer, func(in ssa.Instruction) {
+			if st, ok := in.(*ssa.Store); ok {
+				if _, f, okf := fieldOfAddr(st.Addr); okf && f.Name() == "NAT" {
+					if isResultOfCall(st.Val, helperCall, 0) {
+						stored = true
+					} else {
+						okDefault = false
+					}
+				}
+			}
+		})
+		okE := errNilEdges(outer, helperCall, ei)
+		for _, r := range returnsOf(outer) {
+			oi := errResultIndex(outer.Signature)
+			if oi >= 0 && retMayBeNil(r, oi) && (len(okE) == 0 || reachableWithout(outer, r, okE) != nil) {
+				okDefault = false
+			}
+		}
+		c.check(okDefault && stored, rule, key+" maps absent NAT to unknown", p.Pos(fn.Pos()), "through "+p.FnName(fn), "an absent NAT type is not defaulted to \"unknown\" (or the helper's verdict is not honoured)")
+		return
+	}
 	okDefault := false
 	allInstrs(fn, func(in ssa.Instruction) {
 		st, ok := in.(*ssa.Store)
@@ -390,6 +465,81 @@ func (c *Ctx) checkNATSwitch(rule, rel, name string) {
 		}
 	})
 	c.check(okDefault, rule, key+" maps absent NAT to unknown", p.Pos(fn.Pos()), "", "an absent NAT type is not defaulted to \"unknown\"")
+}
+
+// definitelyNonNil: v is an error value that cannot be nil: a fresh error
+// (errors.New, fmt.Errorf), a boxed concrete value, or a phi of such.
+func definitelyNonNil(v ssa.Value) bool {
+	seen := map[ssa.Value]bool{}
+	var rec func(v ssa.Value) bool
+	rec = func(v ssa.Value) bool {
+		if seen[v] {
+			return true
+		}
+		seen[v] = true
+		switch x := v.(type) {
+		case *ssa.MakeInterface:
+			return true
+		case *ssa.UnOp:
+			// a package-level sentinel error (io.EOF, ErrBridgeNotFound, ...)
+			if _, isG := x.X.(*ssa.Global); isG && x.Op == token.MUL {
+				return true
+			}
+		case *ssa.Call:
+			switch calleeName(x) {
+			case "errors.New", "fmt.Errorf":
+				return true
+			}
+		case *ssa.Phi:
+			for _, e := range x.Edges {
+				if !rec(e) {
+					return false
+				}
+			}
+			return len(x.Edges) > 0
+		}
+		return false
+	}
+	return rec(v)
+}
+
+// retMayBeNil: may result idx of return r be nil? The nil constant may; fresh
+// errors may not; any other value (a callee's error handed on) may, unless the
+// return (or, for a phi, the predecessor the value arrives from) lies behind
+// the "value != nil" edge of a test of that very value.
+func retMayBeNil(r *ssa.Return, idx int) bool {
+	fn := r.Parent()
+	unknownMay := func(v ssa.Value, at *ssa.BasicBlock) bool {
+		nonNil := nilCheckEdges(fn, false, func(w ssa.Value) bool { return w == v })
+		if len(nonNil) == 0 {
+			return true
+		}
+		return psSearch(fn.Blocks[0], nonNil, nil, func(b *ssa.BasicBlock) bool { return b == at }) != nil
+	}
+	seen := map[ssa.Value]bool{}
+	var rec func(v ssa.Value, at *ssa.BasicBlock) bool
+	rec = func(v ssa.Value, at *ssa.BasicBlock) bool {
+		if isNilConst(v) {
+			return true
+		}
+		if definitelyNonNil(v) {
+			return false
+		}
+		if ph, ok := v.(*ssa.Phi); ok {
+			if seen[v] {
+				return false
+			}
+			seen[v] = true
+			for i, e := range ph.Edges {
+				if rec(e, ph.Block().Preds[i]) {
+					return true
+				}
+			}
+			return false
+		}
+		return unknownMay(v, at)
+	}
+	return rec(retVal(r, idx), r.Block())
 }
 
 // mayBeNil: v is the nil constant or a phi with a nil edge.
@@ -432,15 +582,19 @@ func (c *Ctx) checkHeapShape() {
 	}
 	good := false
 	for _, r := range returnsOf(less) {
-		if bo, ok := r.Results[0].(*ssa.BinOp); ok && bo.Op == token.LSS {
-			ix, fx, okx := elemField(bo.X)
-			iy, fy, oky := elemField(bo.Y)
+		if lx, ly, ok := strictLess(retVal(r, 0)); ok {
+			ix, fx, okx := elemField(lx)
+			iy, fy, oky := elemField(ly)
 			if okx && oky && fx == "clients" && fy == "clients" && len(less.Params) == 3 && ix == ssa.Value(less.Params[1]) && iy == ssa.Value(less.Params[2]) {
 				good = true
 			}
 		}
 	}
 	c.check(good, rule, "SnowflakeHeap.Less(i, j) is sh[i].clients < sh[j].clients", p.Pos(less.Pos()), "", "the comparator is not 'fewer clients first' on its two arguments (orientation, field or strictness changed)")
+	// the heap.Interface methods are invoked by container/heap only: a direct
+	// call of Push/Pop/Swap appends, removes or exchanges without sifting and
+	// breaks the order that heap.Pop relies on
+	c.checkHeapMethodsPrivate(rule, "broker", "SnowflakeHeap")
 	// index maintenance
 	idxF := p.Field("broker", "Snowflake", "index")
 	if push := p.Fn("broker", "(*SnowflakeHeap).Push"); push != nil {
@@ -531,4 +685,42 @@ func (c *Ctx) checkHeapShape() {
 			}
 		}
 	}
+}
+
+// checkHeapMethodsPrivate: Push, Pop and Swap of a heap.Interface type have no
+// static caller in the repository (container/heap calls them through the
+// interface); Len and Less are harmless.
+func (c *Ctx) checkHeapMethodsPrivate(rule, rel, typ string) {
+	p := c.P
+	n := 0
+	for _, m := range []string{"Push", "Pop", "Swap"} {
+		for _, recv := range []string{"(*" + typ + ")", "(" + typ + ")"} {
+			fn := p.Fn(rel, recv+"."+m)
+			if fn == nil {
+				continue
+			}
+			n++
+			bad := 0
+			for _, ci := range p.realCallers(fn) {
+				if par := ci.Parent(); par != nil && namedOf(recvTypeOf(par)) == namedOf(recvTypeOf(fn)) && namedOf(recvTypeOf(fn)) != nil {
+					continue // the type's own methods may build on one another
+				}
+				bad++
+				c.viol(rule, typ+"."+m+" is called only by container/heap", p.instrPos(ci), p.FnName(ci.Parent())+" calls the heap.Interface method directly: the element is appended, removed or exchanged without restoring the heap order")
+			}
+			if bad == 0 {
+				c.ok(rule, typ+"."+m+" is called only by container/heap", p.Pos(fn.Pos()), "no static caller")
+			}
+		}
+	}
+	if n < 3 {
+		c.undecided(rule, typ+" heap.Interface methods", "-", fmt.Sprintf("only %d of Push/Pop/Swap resolve", n))
+	}
+}
+
+func recvTypeOf(fn *ssa.Function) types.Type {
+	if fn == nil || fn.Signature.Recv() == nil {
+		return types.Typ[types.Invalid]
+	}
+	return fn.Signature.Recv().Type()
 }
